@@ -604,7 +604,7 @@ fn gen(rng: &mut Rng, tier: Tier) -> Vec<Case> {
     let mut cases = vec![];
     let versions = ["1.3", "1.4", "1.5", "1.6", "1.7", "2.0"];
     let (ndocs, nheavy) = match tier {
-        Tier::Quick => (60, 1),
+        Tier::Quick => (45, 1),
         Tier::Thorough => (1500, 40),
     };
     let mut push = |cfg: String, prog: &str, kind: &str| {
